@@ -12,7 +12,7 @@ RULE = ('index loading: get_license_index() and the ready-made factories against
         'every alias in 3 parse to that entry\'s symbol with the flag of the index, render as the canonical key and validate '
         'without errors (exceptions: non-strictly alone, strictly on the right of a WITH); deprecated entries and SPDX entries without '
         'SPDX key are unknown; random compound expressions over the entries; synthetic indexes with random deprecated / missing-key / '
-        'alias / exception fields (including a missing is_exception). Correspondence: the loaders\' (key, aliases, flag) tables with '
+        'alias / exception fields (including a missing is_exception, and a live entry listing the SPDX key of a deprecated one). Correspondence: the loaders\' (key, aliases, flag) tables with '
         'the model\'s buildSpdx / buildScancode, indexOK evaluated by the driver, and a sample of the parses with the model. '
         'non-trivial = a name of a non-deprecated entry; distinct by (table kind, name variant)')
 ASSUMPTIONS = ['"validates without errors" for an exception entry means non-strict validation alone and strict validation on the right of a WITH (C12)',
@@ -189,6 +189,13 @@ class Prop(BaseProp):
             if rng.random() < 0.3:
                 r['is_deprecated'] = True
             idx.append(r)
+        # a live entry that lists, as an other SPDX key, the SPDX key of a deprecated entry (the deprecated entry is not
+        # loaded, so the name belongs to the live one)
+        dead = [r for r in idx if r.get('is_deprecated') and r.get('spdx_license_key')]
+        live = [r for r in idx if not r.get('is_deprecated') and r.get('spdx_license_key')]
+        if dead and live and rng.random() < 0.5:
+            r = rng.choice(live)
+            r['other_spdx_license_keys'] = list(r.get('other_spdx_license_keys') or []) + [rng.choice(dead)['spdx_license_key']]
         return idx
 
     def loading(self, rng):
